@@ -1,5 +1,6 @@
 import Props.C04
-import Model.Define
+import Lemmas.RoEquiv
+import Lemmas.Tree
 /-!
 # C09 — require-order stops at the first non-option and hands the rest over verbatim
 -/
@@ -51,24 +52,85 @@ theorem ro_command_descends (s : PState) (t : Str) (c : Nat) (he : s.err = none)
   rw [this]
   simp [hcmd]
 
-/-- commands created after `SetRequireOrder` carry the flag (and the unknown-mode) of their parent -/
-theorem ro_inherited (env : Env) (st st' : BState) (h : Nat) (name desc : Str)
-    (hb : buildStep ext env st (.cmd h name desc) = .ok st') (p : Nat) (hp : st.handles[h]? = some p) :
-    ∃ id, st'.handles = st.handles ++ [id] ∧ id = st.P.nodes.length := by
-  simp only [buildStep, handle, hp, bind, Except.bind] at hb
-  split at hb
-  · simp at hb
-  · rename_i v hv
-    obtain ⟨P1, id⟩ := v
-    simp only [pure, Except.pure, Except.ok.injEq] at hb
-    refine ⟨id, by rw [← hb], ?_⟩
-    unfold addChildCommand at hv
-    split at hv
-    · simp at hv
-    · split at hv
-      · simp at hv
-      · simp only [Except.ok.injEq, Prod.mk.injEq] at hv
-        exact hv.2.symm
+/-- With require-order, an option token whose first pair names no declared option stops the parser:
+the whole token is kept verbatim (once), nothing is recorded as unknown, no later letter of the token
+is interpreted. -/
+theorem ro_stop_unknown_token (s : PState) (t : Str) (p : Pair) (ps : List Pair)
+    (he : s.err = none) (hc : s.ctx = .idle) (hopt : isOption t mode = (p :: ps, true))
+    (hr : resolve (s.P.node s.cur) p.opt = []) (hro : (s.P.node s.cur).requireOrder = true) :
+    step ext mode s t =
+      { s with rem := s.rem ++ [t], ctx := .stopped, pending := [], tok := t, lastTok := t, passed := false } := by
+  have hd : t ≠ dashdash := by
+    intro e; subst e; simp [isOption, dashdash] at hopt
+  rw [step_head_option ext mode s t _ he hc hd hopt]
+  unfold drain
+  simp only
+  rw [procPair_unknown_ro ext _ p (by simpa [headState] using hr) (by simpa [headState] using hro)]
+  simp [headState, PState.addText, he]
+
+/-- **Everything before the stop point is parsed exactly as without require-order**: as long as the
+parser has not stopped after the tokens `pre`, its state is the state of the same program with every
+require-order flag cleared (`cl` only clears the flags in the carried program). -/
+theorem ro_prefix_as_without (P : Prog) (pre : List Str) (h : (run ext mode P pre).ctx ≠ .stopped) :
+    run ext mode P.clearRO pre = (run ext mode P pre).cl :=
+  run_cl ext mode P pre h
+
+/-- **The property for a positional stop token.**  `pre` leaves the parser at a head position of a
+level with require-order; `t` is neither option-looking, nor `--`, nor a sub-command name.  Then the
+parse of `pre ++ t :: tail` succeeds with: the options, selected command and unknown-option log of
+the parse of `pre` *without* require-order; and `remaining` = what `pre` left there, then `t`, then
+`tail` verbatim — whatever `tail` contains. -/
+theorem ro_parse_text_stop (P : Prog) (pre tail : List Str) (t : Str)
+    (he : (run ext mode P pre).err = none) (hc : (run ext mode P pre).ctx = .idle)
+    (hd : t ≠ dashdash) (hno : (isOption t mode).2 = false)
+    (hcmd : lookup t ((run ext mode P pre).P.node (run ext mode P pre).cur).cmds = none)
+    (hro : ((run ext mode P pre).P.node (run ext mode P pre).cur).requireOrder = true) :
+    let r := parseArgs ext mode P (pre ++ t :: tail)
+    let w := run ext mode P.clearRO pre
+    r.P.clearRO = w.P ∧ r.cur = w.cur ∧ r.unk = w.unk ∧ r.err = none ∧ r.rem = w.rem ++ t :: tail := by
+  have hns : (run ext mode P pre).ctx ≠ .stopped := by rw [hc]; intro e; cases e
+  have hw := run_cl ext mode P pre hns
+  have := ro_tail_verbatim ext mode (run ext mode P pre) t tail he hc hd hno hcmd hro
+  simp only at this ⊢
+  unfold parseArgs
+  rw [run_append, hw]
+  obtain ⟨h1, h2, h3, h4, h5⟩ := this
+  exact ⟨by rw [h1]; rfl, h2, h3, h4, h5⟩
+
+/-- **The property for an unknown-option stop token** (same conclusion). -/
+theorem ro_parse_unknown_stop (P : Prog) (pre tail : List Str) (t : Str) (p : Pair) (ps : List Pair)
+    (he : (run ext mode P pre).err = none) (hc : (run ext mode P pre).ctx = .idle)
+    (hopt : isOption t mode = (p :: ps, true))
+    (hr : resolve ((run ext mode P pre).P.node (run ext mode P pre).cur) p.opt = [])
+    (hro : ((run ext mode P pre).P.node (run ext mode P pre).cur).requireOrder = true) :
+    let r := parseArgs ext mode P (pre ++ t :: tail)
+    let w := run ext mode P.clearRO pre
+    r.P.clearRO = w.P ∧ r.cur = w.cur ∧ r.unk = w.unk ∧ r.err = none ∧ r.rem = w.rem ++ t :: tail := by
+  have hns : (run ext mode P pre).ctx ≠ .stopped := by rw [hc]; intro e; cases e
+  have hw := run_cl ext mode P pre hns
+  have hst := ro_stop_unknown_token ext mode (run ext mode P pre) t p ps he hc hopt hr hro
+  simp only
+  unfold parseArgs
+  rw [run_append, hw]
+  simp only [List.foldl_cons]
+  rw [hst]
+  have := after_stop ext mode
+    { run ext mode P pre with rem := (run ext mode P pre).rem ++ [t], ctx := .stopped, pending := [], tok := t,
+                              lastTok := t, passed := false } tail (by simpa using he) rfl
+  simp only at this
+  obtain ⟨h1, h2, h3, h4, h5⟩ := this
+  refine ⟨by rw [h1]; rfl, h2, h3, h4, ?_⟩
+  rw [h5]; simp [PState.cl]
+
+/-- **Inheritance**: a command created under a parent carries the parent's require-order flag (and
+unknown-mode), so the stop applies at every level created after `SetRequireOrder`. -/
+theorem ro_inherited (env : Env) (st st' : BState) (h : Nat) (name desc : Str) (p : Nat)
+    (hp : st.handles[h]? = some p) (hb : buildStep ext env st (.cmd h name desc) = .ok st') :
+    st'.handles = st.handles ++ [st.P.nodes.length] ∧
+    (st'.P.node st.P.nodes.length).requireOrder = (st.P.node p).requireOrder ∧
+    (st'.P.node st.P.nodes.length).umode = (st.P.node p).umode := by
+  have := cmd_inherits ext env st st' h name desc p hp hb
+  exact ⟨this.1, this.2.1, this.2.2.1⟩
 
 /-! Non-vacuity: require-order on the demo program. -/
 example :
@@ -77,6 +139,16 @@ example :
       some [b "stop", b "--name=x", b "--", b "cmd"] ∧
     ((parseUser Demo.ext P [b "--num", b "1", b "-v", b "stop", b "--name=x", b "--", b "cmd"]).st.P.opt 0).called = false ∧
     ((parseUser Demo.ext P [b "--num", b "1", b "-v", b "stop", b "--name=x", b "--", b "cmd"]).st.P.opt 1).called = true := by
+  decide
+
+/-- the hypotheses of `ro_parse_text_stop` and `ro_parse_unknown_stop` are met after a prefix that sets
+a valued option and a flag -/
+example :
+    let P := Demo.prog.modNode 0 fun n => { n with requireOrder := true }
+    let s := run Demo.ext .normal P [b "--num", b "1", b "-v"]
+    s.err = none ∧ s.ctx = .idle ∧ (s.P.node s.cur).requireOrder = true ∧
+    lookup (b "stop") (s.P.node s.cur).cmds = none ∧ (isOption (b "stop") .normal).2 = false ∧
+    isOption (b "--zzz=1") .normal = ([⟨b "zzz", [b "1"]⟩], true) ∧ resolve (s.P.node s.cur) (b "zzz") = [] := by
   decide
 
 end GoModel
